@@ -160,6 +160,11 @@ def gen_values(cfg, seed):
                     a[i, j] = 0
                 elif pat == "arrow" and not (blk[i] == 0 or blk[j] == 0 or same):
                     a[i, j] = 0
+        if cfg.get("lab_herm"):
+            # the term is a Hermitian matrix in the (non-orthogonal) lab basis of the (R, L) pairs
+            b = np.triu(a, 1) + np.triu(a, 1).conj().T + np.diag(np.diag(a).real)
+            T, Ti = unimodular(N)
+            a = Ti @ b @ T
         out[order] = a
     return out
 
